@@ -355,6 +355,31 @@ def prove(hyps, goal, timeout_ms=20000, extra_axioms=(), free_ufs_ok=False, ufs=
             # the enclosures leave ~1e-25 of slack: an identity that holds exactly can be 'violated' inside it.
             # Re-evaluated with the true functions the goal holds (or is within rounding), so this is no counterexample.
             rep = None
+        if rep is None:
+            # ask for a ROBUST counterexample (the goal violated by a margin, arguments inside the domains) and repair that
+            rn = _robust_negation(goal)
+            if rn is not None:
+                s.push()
+                try:
+                    s.add(em(rn))
+                    for t in universe:
+                        if t.op == 'div':
+                            s.add(em.real(em(t.args[1])) != 0)
+                        elif t.op == 'log':
+                            s.add(em.real(em(t.args[0])) > 0)
+                        elif t.op == 'sqrt':
+                            s.add(em.real(em(t.args[0])) >= 0)
+                    s.set('timeout', int(min(timeout_ms, 10000)))
+                    if s.check() == z3.sat:
+                        rep2 = _repair(z3, s, s.model(), em, universe, timeout_ms)
+                        if rep2 is not None and not _repaired_is_spurious(z3, rep2, em, universe, allv,
+                                                                           hyps + list(extra_axioms), goal, ufs):
+                            rep = rep2
+                except Exception:
+                    pass
+                finally:
+                    s.pop()
+                    s.set('timeout', int(timeout_ms))
         if rep is not None:
             env2 = _model_env(z3, rep, em, allv)
             mm = {'env': env2}
@@ -472,6 +497,48 @@ def _repair(z3, solver, m, em, universe, timeout_ms):
         mpmath.mp.dps = old
 
 
+def _robust_negation(g, margin=Fraction(1, 10 ** 6)):
+    """a formula implying not(g) in which every real comparison is violated by at least `margin` (None if g has no such
+    comparison): a counterexample of it survives the 1e-25 slack of the enclosures"""
+    m = ir.const(margin)
+
+    def neg(t):
+        if t.op == 'and':
+            parts = [neg(a) for a in t.args]
+            parts = [p for p in parts if p is not None]
+            return ir.or_(*parts) if parts else None
+        if t.op == 'or':
+            parts = [neg(a) for a in t.args]
+            return ir.and_(*parts) if all(p is not None for p in parts) else None
+        if t.op == 'not':
+            return pos(t.args[0])
+        if t.op in ('eq', 'le', 'lt') and all(a.sort in ('R', 'I') for a in t.args):
+            a, b = t.args
+            if t.op == 'eq':
+                return ir.or_(ir.gt(ir.sub(a, b), m), ir.gt(ir.sub(b, a), m))
+            return ir.gt(ir.sub(a, b), m)                       # a <= b / a < b  violated by a margin
+        return ir.not_(t)
+
+    def pos(t):
+        if t.op == 'and':
+            parts = [pos(a) for a in t.args]
+            return ir.and_(*parts) if all(p is not None for p in parts) else None
+        if t.op == 'or':
+            parts = [pos(a) for a in t.args]
+            parts = [p for p in parts if p is not None]
+            return ir.or_(*parts) if parts else None
+        if t.op == 'not':
+            return neg(t.args[0])
+        if t.op in ('le', 'lt') and all(a.sort in ('R', 'I') for a in t.args):
+            a, b = t.args
+            return ir.gt(ir.sub(b, a), m)
+        return t
+    try:
+        return neg(g)
+    except Exception:
+        return None
+
+
 def _repaired_is_spurious(z3, m, em, universe, allv, hyps, goal, ufs):
     """Evaluate hyps and goal with the TRUE transcendental functions at the repaired model (variables and uninterpreted
     applications take the model's values). True when the goal then holds, is within the rounding band, or a hypothesis
@@ -480,35 +547,37 @@ def _repaired_is_spurious(z3, m, em, universe, allv, hyps, goal, ufs):
     import mpmath
     env = _model_env(z3, m, em, allv)
     old = mpmath.mp.dps
-    # z3 likes extreme rationals (1 - 1e-308): evaluate with enough digits to tell them from their neighbours
+    # z3 likes extreme rationals (1 - 1e-308): first collect every value, then evaluate with enough digits to tell each of
+    # them from its neighbours
     need = 50
     for v in env.values():
         if isinstance(v, Fraction):
             need = max(need, 2 * (len(str(v.denominator)) + len(str(abs(v.numerator)))) + 50)
-    mpmath.mp.dps = min(need, 1500)
+    ufvals = {}
+    if not ufs:
+        for t in universe:
+            if t.op != 'uf':
+                continue
+            try:
+                v = m.eval(em(t), model_completion=True)
+            except Exception:
+                continue
+            if t.sort == 'B':
+                ufvals[t] = z3.is_true(v)
+            elif t.sort in ('R', 'I'):
+                if z3.is_algebraic_value(v):
+                    v = v.approx(30)
+                if z3.is_int_value(v) or z3.is_rational_value(v):
+                    fr = Fraction(v.as_fraction()) if not z3.is_int_value(v) else Fraction(v.as_long())
+                    need = max(need, 2 * (len(str(fr.denominator)) + len(str(abs(fr.numerator)))) + 50)
+                    ufvals[t] = fr
+            else:
+                ufvals[t] = str(v)
+    mpmath.mp.dps = min(need, 3000)
     try:
         cache = {}
-        if not ufs:
-            for t in universe:
-                if t.op != 'uf':
-                    continue
-                try:
-                    v = m.eval(em(t), model_completion=True)
-                except Exception:
-                    continue
-                if t.sort == 'B':
-                    cache[t] = z3.is_true(v)
-                elif t.sort in ('R', 'I'):
-                    if z3.is_algebraic_value(v):
-                        v = v.approx(30)
-                    if z3.is_int_value(v) or z3.is_rational_value(v):
-                        fr = Fraction(v.as_fraction()) if not z3.is_int_value(v) else Fraction(v.as_long())
-                        nd = 2 * (len(str(fr.denominator)) + len(str(abs(fr.numerator)))) + 50
-                        if nd > mpmath.mp.dps:
-                            mpmath.mp.dps = min(nd, 1500)
-                        cache[t] = mpmath.mpf(fr.numerator) / mpmath.mpf(fr.denominator)
-                else:
-                    cache[t] = str(v)
+        for t, v in ufvals.items():
+            cache[t] = mpmath.mpf(v.numerator) / mpmath.mpf(v.denominator) if isinstance(v, Fraction) else v
         dbg = os.environ.get('VERIF_DEBUG_REPAIR')
         try:
             for h in hyps:
